@@ -33,8 +33,15 @@ def fires(rng, n, p=0.35, kmax=3):
     return ("!" + "+".join(f) + ":") if f else ""
 
 
-def fscript(rng, n, i, tryj, panic=0.03, perr=0.3, maxlen=4):
+def fscript(rng, n, i, tryj, panic=0.03, perr=0.3, maxlen=4, drain=False):
+    """drain: the script is Pending* then Ready and every Pending step wakes the child itself from inside its poll, so that polling alone
+       drives the combinator to completion"""
     st = []
+    if drain:
+        for _ in range(rng.randint(0, maxlen)):
+            st.append(("!s:" if rng.random() < 0.9 else fires(rng, n)) + "P")
+        st.append(fires(rng, n, 0.15) + (f"F{500+i}" if (tryj and rng.random() < perr) else f"R{100+i}"))
+        return ",".join(st)
     for _ in range(rng.randint(0, maxlen)):
         r = rng.random()
         if r < 0.6:
@@ -51,9 +58,18 @@ def fscript(rng, n, i, tryj, panic=0.03, perr=0.3, maxlen=4):
     return ",".join(st)
 
 
-def sscript(rng, n, i, panic=0.03, maxlen=6, pitem=0.45, ppend=0.4):
+def sscript(rng, n, i, panic=0.03, maxlen=6, pitem=0.45, ppend=0.4, drain=False):
     st = []
     k = 0
+    if drain:       # (Pending | Item)* End, every Pending step self-waking: polling alone drains the stream
+        for _ in range(rng.randint(0, maxlen)):
+            if rng.random() < 0.4:
+                st.append(("!s:" if rng.random() < 0.9 else fires(rng, n)) + "P")
+            else:
+                st.append(fires(rng, n, 0.15) + f"I{100*(i+1)+k}")
+                k += 1
+        st.append(fires(rng, n, 0.15) + "E")
+        return ",".join(st)
     for _ in range(rng.randint(0, maxlen)):
         r = rng.random()
         if r < ppend:
@@ -142,12 +158,21 @@ def gen_fixed(rng, cfg, combs, count, tag, panic=0.03, style="mixed", allow_zero
             n = rng.choice([23, 65]) if cont == "array" else rng.choice(VEC_BOUNDARY)
         else:
             cont, n = pick_container(rng, cfg, comb, allow_zero)
-        if comb in FUT:
-            scs = ";".join(fscript(rng, n, i, comb in TRY, panic, 0.6 if comb == "race_ok" else 0.3) for i in range(n))
-        else:
-            scs = ";".join(sscript(rng, n, i, panic) for i in range(n))
         r = rng.random()
-        if style == "executor" or (style == "mixed" and r < 0.5):
+        drain = style == "drain" or (style == "mixed" and r >= 0.85)
+        if comb in FUT:
+            scs = ";".join(fscript(rng, n, i, comb in TRY, panic, 0.6 if comb == "race_ok" else 0.3, drain=drain) for i in range(n))
+        else:
+            scs = ";".join(sscript(rng, n, i, panic, drain=drain) for i in range(n))
+        if drain:
+            # polls until everything has been consumed (one result per poll at most), a few stale wake-ups in between, polls after the end
+            total = sum(len(x.split(",")) for x in scs.split(";")) if n else 0
+            ops = []
+            for _ in range(min(total, 40) + 3):
+                ops.append("p" if rng.random() < 0.85 else "q")
+                if n > 0 and rng.random() < 0.15:
+                    ops.append(f"f{pick_child(rng, n)}.{rng.randrange(3)}")
+        elif style == "executor" or (style == "mixed" and r < 0.45):
             ops = ops_executor(rng, n)
         else:
             ops = ops_adversarial(rng, n)
